@@ -43,7 +43,7 @@ PROBES = ("suppressed", "replaced_by_generator", "did_not_yield", "did_not_stop"
 PRE = ("yield", "raise", "noyield")
 HANDLERS = ("none", "finally", "swallow", "reraise", "raise_new", "raise_new_from_none", "raise_same_type",
             "return", "yield_again", "raise_stopasync", "raise_runtime", "raise_runtime_from_caught", "raise_equal_copy",
-            "raise_stopiter")
+            "raise_stopiter", "raise_group")
 POST = ("stop", "yield_again", "raise", "raise_stopasync", "raise_stopiter", "raise_runtime")
 OUTCOMES = ("normal", "Exception", "BaseException", "StopIteration", "StopAsyncIteration", "RuntimeError",
             "GeneratorExit", "KeyboardInterrupt", "EqualException", "FalsyException", "SystemExit",
@@ -185,6 +185,11 @@ def make_genfunc(prep, sim, log, injected, method_of=None):
                     raise marked(RuntimeError("generator's own"), "own_runtime")
                 elif h == "raise_runtime_from_caught":
                     raise marked(RuntimeError("generator's own"), "own_runtime_from") from err
+                elif h == "raise_group":
+                    # a group whose only member is the very exception that was thrown in (what a task group around the
+                    # yield makes of it): another exception object all the same
+                    cls = ExceptionGroup if isinstance(err, Exception) else BaseExceptionGroup
+                    raise marked(cls("cleanup", [err]), "group")
                 elif h == "raise_equal_copy":
                     try:
                         new = type(err)(*err.args)
